@@ -31,7 +31,7 @@ func init() {
 	eng.Register(&eng.Monitor{
 		ID: "C07", Level: "exploration",
 		Rule: "cases = generated parameter sets: BGV (logN, log2(N/plaintext ring degree), plaintext modulus size, Q/P chain) and CKKS (ring type, logN, Q/P chain, default scale, encoder precision). " +
-			"Inside a case the monitor enumerates level x {slots, coefficients} x IsNTT x value type x boundary pattern (0, 1, t-1, t, 2^63, 2^64-1, MinInt64, +-(t-1)/2, +-(t+1)/2, multiples of t; CKKS: magnitudes from 1/scale to 0.45*Q/scale, one-hot, constant, real-only, tiny negative) x vector length (0/1, 1, slots-1, slots, random) x scale (1, t-1, random; CKKS: default, other power of two, non power of two, prime) x output type/length, " +
+			"Inside a case the monitor enumerates level x {slots, coefficients} x IsNTT x value type x boundary pattern (0, 1, t-1, t, 2^63, 2^64-1, MinInt64, +-(t-1)/2, +-(t+1)/2, multiples of t; CKKS: magnitudes from 1/scale to 0.35*Q/scale, one-hot, constant, real-only, tiny negative) x vector length (0/1, 1, slots-1, slots, random) x scale (1, t-1, random; CKKS: default, other power of two, non power of two, prime) x output type/length, " +
 			"plus products of two encodings, decoding under worst admissible noise (BGV), Embed into ring.Poly / ringqp.Poly with every (IsNTT, IsMontgomery), FFT/IFFT against a naive DFT, DecodePublic. " +
 			"distinct key = (scheme, ring type or gap, logN, level class, domain/logSlots, IsNTT, target API, input type, output type, pattern, length class, scale class, precision path). " +
 			"non-trivial = NOT (uniformly random full-length vector, top level, default scale, IsNTT=true, Encode into a plaintext, gap 1, float64 path).",
@@ -39,7 +39,7 @@ func init() {
 		Assumptions: []string{
 			"model arithmetic (math/big integers and floats, bits.Mul64/Div64) is correct",
 			"ring.NTT/INTT/MForm/IMForm used to bring a polynomial to the coefficient domain are correct (judged by C01)",
-			"CKKS bound: rounding error <= 1 unit per real coefficient (<= 1.5*slots/scale per slot) + 2^-(p-4)*(2*logSlots+4)*sqrt(slots)*max|v| for working precision p (53 or the encoder precision); inputs satisfy max|v|*scale <= 0.45*Q_level",
+			"CKKS bound: rounding error <= 1/2 unit per real coefficient (<= 0.7072*slots/scale per slot, slots/scale in the conjugate-invariant ring; exactly 1/2 unit in the coefficient domain) + 2^-(p-4)*(2*logSlots+4)*sqrt(slots)*max|v| for working precision p (53 or the encoder precision); inputs satisfy max|v|*scale <= 0.35*Q_level",
 			"BGV scales are taken in [1, t-1]; output slices are never longer than the slot count",
 		},
 	})
